@@ -49,6 +49,7 @@ def method(world, eng, p, o, name, args, kws):
         out.append((q, None))
     p.pc.append(z3.Not(rz(me, IntVal(idx))))
     res = Function(f'libres_{name}', Val, IntSort(), Val)(me, IntVal(idx))
+    p.ghost['lib_results'] = list(p.ghost.get('lib_results', [])) + [res]       # what each library call of this path returned, in call order
     if eng.feasible(p.pc):
         out.append((p, SVal(res)))
     return out
